@@ -25,13 +25,14 @@ def configs(tier):
     for kind in ("ode", "statio", "nonstatio"):
         for d in ((1,) if kind == "ode" else (2, 1)):
             out.append(dict(kind=kind, K=K, d=d, x64=True))
+    out.append(dict(kind="nonstatio", K=K, d=1, time_first=True, x64=True))     # the time store fills before the space store
     return out
 
 
 KEY = None
 
 
-def build(kind, start, every, d=1):
+def build(kind, start, every, d=1, ncomp=1, time_first=False):
     global KEY
     import jinns
     from jinns.parameters import Params
@@ -45,7 +46,9 @@ def build(kind, start, every, d=1):
     if kind == "ode":
         u = mk_pinn(1, 1, "ODE", deg=1, H=1)
         class Eq(ODE):
-            def equation(self, t, u, p): return psi(0)(u(t, p)[0] + 0.5 * sc(t))
+            def equation(self, t, u, p):
+                if ncomp == 1: return psi(0)(u(t, p)[0] + 0.5 * sc(t))
+                return jnp.stack([psi(c)((1.0 + c) * u(t, p)[0] + 0.5 * sc(t)) for c in range(ncomp)])
         params = Params(nn_params=u.init_params(), eq_params={"kappa": jnp.array(1.3)})
         loss = LossODE(u=u, dynamic_loss=Eq(Tmax=1), params=params)
         data = DG.DataGeneratorODE(key, 9, 0.0, 1.0, 2, rar_parameters=rp, nt_start=3)
@@ -53,7 +56,9 @@ def build(kind, start, every, d=1):
     elif kind == "statio":
         u = mk_pinn(d, 1, "statio_PDE", deg=1, H=1)
         class Eq(PDEStatio):
-            def equation(self, x, u, p): return psi(0)(u(x, p)[0] + 0.5 * x[0])
+            def equation(self, x, u, p):
+                if ncomp == 1: return psi(0)(u(x, p)[0] + 0.5 * x[0])
+                return jnp.stack([psi(c)((1.0 + c) * u(x, p)[0] + 0.5 * x[0]) for c in range(ncomp)])
         params = Params(nn_params=u.init_params(), eq_params={"kappa": jnp.array(1.3)})
         loss = LossPDEStatio(u=u, dynamic_loss=Eq(Tmax=1), params=params)
         data = DG.CubicMeshPDEStatio(key=key, n=8, nb=None, omega_batch_size=2, omega_border_batch_size=None, dim=d, min_pts=(0.0,) * d, max_pts=(1.0,) * d,
@@ -65,9 +70,10 @@ def build(kind, start, every, d=1):
             def equation(self, t, x, u, p): return psi(0)(u(t, x, p)[0] + 0.5 * t[0] + 0.25 * x[0])
         params = Params(nn_params=u.init_params(), eq_params={"kappa": jnp.array(1.3)})
         loss = LossPDENonStatio(u=u, dynamic_loss=Eq(Tmax=1), params=params)
-        data = DG.CubicMeshPDENonStatio(key=key, n=8, nb=None, nt=9, omega_batch_size=2, omega_border_batch_size=None, temporal_batch_size=2, dim=d,
-                                        min_pts=(0.0,) * d, max_pts=(1.0,) * d, tmin=0.0, tmax=1.0, rar_parameters=rp, n_start=4, nt_start=3)
-        sizes = dict(times=(9, 3, 2), omega=(8, 4, 2))
+        n_, n0_, nt_, nt0_ = (10, 4, 7, 3) if time_first else (8, 4, 9, 3)
+        data = DG.CubicMeshPDENonStatio(key=key, n=n_, nb=None, nt=nt_, omega_batch_size=2, omega_border_batch_size=None, temporal_batch_size=2, dim=d,
+                                        min_pts=(0.0,) * d, max_pts=(1.0,) * d, tmin=0.0, tmax=1.0, rar_parameters=rp, n_start=n0_, nt_start=nt0_)
+        sizes = dict(times=(nt_, nt0_, 2), omega=(n_, n0_, 2))
     return data, loss, params, sizes
 
 
@@ -81,6 +87,7 @@ def snapshot(kind, data):
 def run(cfg, R):
     from jinns.solver._rar import init_rar, trigger_rar
     kind, K, d = cfg["kind"], cfg["K"], cfg.get("d", 1)
+    tf = cfg.get("time_first", False)
     build(kind, 1, 2, d)          # creates the (concrete) PRNG key outside the traced function
     start0, every0 = jnp.array(1), jnp.array(2)
     R.note(functions=["jinns.solver._rar.init_rar", "trigger_rar", "_proceed_to_rar", "rar_step_true", "rar_step_false", "jinns.data._DataGenerators._check_and_set_rar_parameters"],
@@ -88,7 +95,7 @@ def run(cfg, R):
            assumptions=["start_iter >= 0", "update_every >= 1"])
 
     def f(start, every):
-        data, loss, params, _ = build(kind, start, every, d)
+        data, loss, params, _ = build(kind, start, every, d, time_first=tf)
         data, t_, f_ = init_rar(data)
         outs = [snapshot(kind, data)]
         for i in range(K):
@@ -96,8 +103,8 @@ def run(cfg, R):
             outs.append(snapshot(kind, data))
         return outs
 
-    _, _, _, sizes = build(kind, 1, 2, d)
-    name = f"{kind}/d{d}/K{K}"
+    _, _, _, sizes = build(kind, 1, 2, d, time_first=tf)
+    name = f"{kind}/d{d}/K{K}" + ("/time-first" if tf else "")
     tr = R.trace(name, f, (start0, every0), key=f"{kind}:d={d}:raises", use_stubs=True)
     if tr is None: return
     start, every = tr.A[0][()], tr.A[1][()]
